@@ -332,6 +332,50 @@ fn case(srv: &mut Srv, seed: u64, res: &mut CaseResult) -> R<()> {
             }
         }
     }
+    // the same through the command-line client: `xs head <topic> -f -c <ctx>` prints that context's head first
+    if let Some(bin) = crate::session::self_exe().parent().map(|p| p.join("xs-real")).filter(|b| b.exists()) {
+        use std::io::{BufRead, BufReader};
+        for c in [a, b] {
+            let mut child = match std::process::Command::new("timeout").arg("-k").arg("2").arg("20").arg(&bin).arg("head").arg(srv.dir.to_string_lossy().to_string()).arg("t").arg("-f").arg("-c").arg(c.to_string()).stdin(std::process::Stdio::null()).stdout(std::process::Stdio::piped()).stderr(std::process::Stdio::null()).spawn() {
+                Ok(ch) => ch,
+                Err(_) => continue,
+            };
+            let stdout = child.stdout.take().unwrap();
+            let (tx, rx) = std::sync::mpsc::channel::<String>();
+            std::thread::spawn(move || {
+                for l in BufReader::new(stdout).lines().map_while(Result::ok) {
+                    if tx.send(l).is_err() {
+                        break;
+                    }
+                }
+            });
+            let mut fs: Vec<Frame> = vec![];
+            if let Ok(l) = rx.recv_timeout(Duration::from_secs(10)) {
+                if let Ok(f) = serde_json::from_str::<Frame>(&l) {
+                    fs.push(f);
+                }
+            }
+            // one live frame elsewhere, one in this context
+            srv.must_append("t", ZERO_CONTEXT, None, Some(json!({"ctx": "zero", "i": "cli-foreign-live"})), None)?;
+            let own = srv.must_append("t", c, None, Some(json!({"ctx": label[&c], "i": "cli-own-live"})), None)?;
+            let t0 = std::time::Instant::now();
+            while t0.elapsed() < Duration::from_secs(5) && !fs.iter().any(|f| f.id == own.id) {
+                if let Ok(l) = rx.recv_timeout(Duration::from_millis(200)) {
+                    if let Ok(f) = serde_json::from_str::<Frame>(&l) {
+                        fs.push(f);
+                    }
+                }
+            }
+            let _ = child.kill();
+            let _ = child.wait();
+            observations += fs.len() as u64;
+            res.count("cli_head_follow_streams", 1);
+            check_scope(res, "cli-head-follow", c, &fs, json!({"command": "xs head t -f -c <ctx>"}));
+            if !fs.iter().any(|f| f.id == own.id) {
+                res.find(&["C06", "C13"], "cli-head-follow/own-context-frame-not-delivered", json!({"context": label[&c], "received": fs.len()}));
+            }
+        }
+    }
     // only the explicit all-contexts read sees every context
     let v = srv.call(json!({"op": "read_sync"}))?;
     let all = frames_of(&v["frames"]);
